@@ -1230,7 +1230,7 @@ def _parse_xml_document(file: PathOrIO, failsafe: bool = True, **parser_kwargs: 
     :return: The root element of the element tree
     """
 
-    parser = etree.XMLParser(remove_blank_text=True, remove_comments=True, **parser_kwargs)
+    parser = etree.XMLParser(remove_blank_text=True, remove_comments=True, remove_pis=True, **parser_kwargs)
 
     try:
         root = etree.parse(file, parser).getroot()
